@@ -481,7 +481,7 @@ def check_handler(run: Run, prog: Program, ctx: Ctx) -> None:  # noqa: C901
 # --------------------------------------------------------------------------------------------- ONLY
 def check_only(run: Run, prog: Program, ctx: Ctx) -> None:
     cls = prog.cls(ACTOR)
-    graph = HelperGraph(cls, ANCHORS)
+    graph = HelperGraph(cls, ANCHORS + ("__init__",))   # helpers of the constructor belong to the constructor
 
     def home(m: FuncInfo) -> set[str] | None:
         """The anchored functions the code of `m` belongs to (itself, or where it is read into)."""
@@ -514,12 +514,61 @@ def check_only(run: Run, prog: Program, ctx: Ctx) -> None:
         if m.name in ("__init__",) + ANCHORS:
             continue
         touches = any(isinstance(x, ast.Attribute) and x.attr in STATE_ATTRS for x in ast.walk(m.node))
+        if home(m) is not None:
+            run.analysed(m.qual)    # a private helper read into the anchored functions: part of what was decided
         if touches and home(m) is None and graph.absorbed_by(m.name, set()) is not None:
             raise AnalysisError(f"{m.qual} touches the in-flight / pending bookkeeping and is called from the "
                                 "anchored functions in a way the path walker cannot follow")
         run.check(not touches or home(m) is not None, "C14.ONLY", m.qual, m.name,
                   "the in-flight / pending bookkeeping is touched outside the three cooperating "
                   "functions", node=m.node, file=m.file)
+
+
+# --------------------------------------------------------------------------------------------- initial state
+def check_init(run: Run, prog: Program, ctx: Ctx) -> None:
+    """The shared state the other rules reason about exists and starts empty: on every path of
+    __init__ that constructs the actor both maps are bound to an empty dict (and nothing else is done
+    to them), the request receiver and the component manager are bound."""
+    fn = prog.func(f"{ACTOR}.__init__")
+    run.analysed(fn.qual)
+    w = _walk(prog, fn, ctx)
+    bad: dict[str, list[tuple[Path, Any]]] = {k: [] for k in ("proc", "pend", "odd", "recv", "manager")}
+    built = 0
+    for p in w.paths:
+        if p.exit == "raise":
+            continue
+        built += 1
+        for attr, coll, slot in (("_processing_tasks", PROC, "proc"), ("_pending_requests", PEND, "pend")):
+            ws = _writes(p, attr)
+            if not any(t == coll and v in ("{}", "dict()") for t, v, _e in ws):
+                bad[slot].append((p, f"{coll} = {{}}"))
+            for t, v, _e in ws:
+                if not (t == coll and v in ("{}", "dict()")):
+                    bad["odd"].append((p, f"{t} = {v}"))
+            for e in _dels(p, attr):
+                bad["odd"].append((p, f"del {u(e.node)}"))
+            for e in _calls_on(p, coll):
+                bad["odd"].append((p, e.node))
+        for coll, slot in ((RECV, "recv"), (MANAGER, "manager")):
+            if not any(effect_target(e)[0] == coll for e in p.effects if e.kind == "write"):
+                bad[slot].append((p, f"{coll} = ..."))
+    if not built:
+        raise AnalysisError(f"{fn.qual}: no constructing path found")
+    _agg(run, "C14.ONLY", fn, f"{PROC} starts as an empty dict",
+         "the in-flight map is not initialised to an empty dict: the first request of a group finds no map "
+         "(or a stale in-flight marker) and is never started", bad["proc"])
+    _agg(run, "C14.ONLY", fn, f"{PEND} starts as an empty dict",
+         "the pending map is not initialised to an empty dict: parking a request fails (or a stale request "
+         "is started after the first completion)", bad["pend"])
+    _agg(run, "C14.ONLY", fn, "the constructor only initialises the bookkeeping maps",
+         "the constructor fills or rebinds the in-flight / pending bookkeeping beyond creating it empty",
+         bad["odd"])
+    _agg(run, "C14.ONLY", fn, f"{RECV} is bound by the constructor",
+         "the request receiver the request loop iterates over is never bound: no request is ever received",
+         bad["recv"])
+    _agg(run, "C14.ONLY", fn, f"{MANAGER} is bound on every constructing path",
+         "the component manager _process_request hands the request to is not bound on some constructing path",
+         bad["manager"])
 
 
 # --------------------------------------------------------------------------------------------- controls
@@ -614,6 +663,14 @@ def structural_controls(prog: Program) -> list[tuple[str, str, str, str, str]]: 
             and isinstance(n, ast.Call) and u(n.func) == "frozenset" and len(n.args) == 1
             and isinstance(n.args[0], ast.Attribute) and n.args[0].attr == "component_ids"]
     add("key is not the component set", [(c, "frozenset()") for c in keys], "C14.KEY")
+    init = cls.methods.get("__init__")
+    if init is not None:
+        for attr, what in (("_processing_tasks", "in-flight"), ("_pending_requests", "pending")):
+            binds = [n for n in ast.walk(init.node) if isinstance(n, (ast.Assign, ast.AnnAssign)) and n.value is not None
+                     and any(isinstance(t, ast.Attribute) and t.attr == attr and u(t.value) == "self"
+                             for t in (n.targets if isinstance(n, ast.Assign) else [n.target]))]
+            add(f"{what} map never created", [(b, "pass") for b in binds], "C14.ONLY")
+            add(f"{what} map starts non-empty", [(b.value, "{frozenset(): None}") for b in binds], "C14.ONLY")  # type: ignore[misc]
     return out
 
 
@@ -622,13 +679,15 @@ def run_rules(run: Run, prog: Program) -> None:
     check_reg(run, prog, ctx)
     check_run(run, prog, ctx)
     check_handler(run, prog, ctx)
+    check_init(run, prog, ctx)
     check_only(run, prog, ctx)
 
 
 def check(run: Run, prog: Program, tier: str) -> str:
     run.rule("C14.ONLY", "distribute_power only inside _process_request; _process_request only from the "
              "request loop and the completion handler; bookkeeping dicts touched nowhere else (private "
-             "helpers read into these functions count as part of them)")
+             "helpers read into these functions count as part of them); the constructor creates both "
+             "dicts empty and binds the receiver and the component manager")
     run.rule("C14.REG", "_process_request is synchronous and on every path creates the task, attaches "
              "the completion callback for (group, request) and registers the task under the group key")
     run.rule("C14.ATOM", "the in-flight guard is exactly `key in _processing_tasks`; no await between "
@@ -640,7 +699,7 @@ def check(run: Run, prog: Program, tier: str) -> str:
              "every Exception path, pops+starts the pending request, clears the marker only otherwise")
     run.rule("C14.KEY", "all bookkeeping is keyed by frozenset(request.component_ids)")
     run_rules(run, prog)
-    run.floor("C14.ONLY", 4)
+    run.floor("C14.ONLY", 9)
     run.floor("C14.REG", 6)
     run.floor("C14.ATOM", 4)
     run.floor("C14.LATEST", 3)
